@@ -11,10 +11,10 @@ from .values import (B, I, R, NAN, Obj, PyRaise, SeqV, SymList, Unsupported, is_
                      real_of, ufunc)
 
 Phi = z3.Function("Phi", R, R)          # standard normal cdf (axioms in solver.py)
-Sqrt = z3.Function("sqrt", R, R)
-Log = z3.Function("log", R, R)
-Exp = z3.Function("exp", R, R)
-Pow = z3.Function("pow", R, R, R)
+Sqrt = z3.Function("usqrt", R, R)
+Log = z3.Function("ulog", R, R)
+Exp = z3.Function("uexp", R, R)
+Pow = z3.Function("upow", R, R, R)
 Lgamma = z3.Function("lgamma", R, R)
 Xlogy = z3.Function("xlogy", R, R, R)
 Erfc = z3.Function("erfc", R, R)
@@ -487,6 +487,12 @@ def reduce_axis(eng, t, axis, kind):
 # --------------------------------------------------------------------------------------
 # the tensorlib model (names of pyhf.tensor.*_backend methods)
 # --------------------------------------------------------------------------------------
+# operations that, on fully concrete operands (index arrays, masks, shapes), are executed by CPython with the real numpy
+# backend; special functions always stay symbolic so that their values are the specification symbols (Phi, sqrt, log, ...)
+NATIVE_STRUCTURAL = {"astensor", "tolist", "shape", "ones", "zeros", "reshape", "ravel", "transpose", "tile", "stack", "concatenate",
+                     "gather", "einsum", "sum", "product", "where", "clip", "abs", "isfinite", "boolean_mask", "outer", "erf", "erfinv"} - {"erf", "erfinv"}
+
+
 class TensorLib:
     def __init__(self, eng, name="numpy"):
         self.eng = eng
@@ -508,8 +514,8 @@ class TensorLib:
 
         def dispatch(*a, **k):
             # fully concrete arguments: the real numpy backend of the tree under test is executed by CPython
-            if native is not None and not any(_symbolic(x) for x in a) and not any(_symbolic(x) for x in k.values()) \
-                    and name not in ("conditional",):
+            if native is not None and name in NATIVE_STRUCTURAL and not any(_symbolic(x) for x in a) \
+                    and not any(_symbolic(x) for x in k.values()):
                 try:
                     return native(*a, **k)
                 except (ValueError, TypeError, IndexError, KeyError) as e:
@@ -517,6 +523,8 @@ class TensorLib:
             if m is None:
                 raise Unsupported(f"tensorlib.{name} has no op contract")
             self.used.add(name)
+            import numpy as _np
+            a = tuple(x.item() if isinstance(x, (_np.ndarray, _np.generic)) and getattr(x, "ndim", 0) == 0 else x for x in a)
             return m(*a, **k)
         return NativeFn("tensorlib." + name, dispatch)
 
@@ -764,8 +772,10 @@ class TensorLib:
         eng = self.eng
         t = lift(eng, t)
         ind = lift(eng, indices)
-        if t.ndim != 1:
-            raise Unsupported("gather on tensor of rank != 1")
+        if t.ndim > 1:
+            # numpy semantics tensor[indices]: indexing along the leading axis
+            k = len(ind.shape)
+            return PT(ind.shape + t.shape[1:], lambda idx: t.fn((_cast(ind.fn(idx[:k]), ind.kind, "int"),) + tuple(idx[k:])), t.kind)
         if ind.shape == ():
             return t.fn((_cast(ind.fn(()), ind.kind, "int"),))
         return PT(ind.shape, lambda idx: t.fn((_cast(ind.fn(idx), ind.kind, "int"),)), t.kind)
